@@ -4,6 +4,7 @@ import Nv.Proofs.C05Hist
 import Nv.Proofs.C05Agree
 import Nv.Proofs.C05Recent
 import Nv.Proofs.C05Scan
+import Nv.Proofs.C05Elapsed
 /-!
 C05 — property theorems for the TTL caches (model: `Nv.Model.C05`, history spec: `Nv.Spec.C05`).
 
@@ -143,21 +144,124 @@ theorem ttl_bound_hits (c : Cfg) (hc : c.indexOrder = .beforeEvict) (clock size 
   have h3 : (final (MSys.step c) (MSys.start clock size dttl) ops).mem.size = size := hsz
   omega
 
-/-! ### a recently touched key is never evicted
+/-! ### expiry, stated on histories -/
 
-Full statement (NOT yet proved as one theorem over histories):
+/-- For every configuration, every start state and every history `pre ++ [Set k v] ++ mid ++ [Get k]`: if the Set
+    succeeded at clock reading `t` (seconds) without keep-ttl and with effective ttl `d > 0` (its own or the default),
+    and no call of `mid` is a Set of `k` or an update-ttl Get of `k` (anything else is allowed: plain / consuming Gets
+    of `k`, Removes, Clears, any calls on other keys, clock advances), then the final Get of `k` at reading `r`
+      * misses when `r > t + d`, and
+      * when `r ≤ t + d` returns exactly `v`, unless `k` left the index meanwhile (removed / consumed / evicted).
+    The deadline is `t + d` computed from the history; nothing is assumed about a stored node. -/
+theorem ttl_elapsed_history (c : Cfg) (clock size : Nat) (dttl : Int) (pre mid : List Op) (k : Key) (v : Val)
+    (o : SetOpt) (g : GetOpt) (hkeep : o.keepTTL = false) (hd : 0 < o.ttl.getD dttl)
+    (hmid : ∀ op ∈ mid, writesTtl k op = false) :
+    let s1 := final (MSys.step c) (MSys.start clock size dttl) pre
+    let r2 := MSys.step c s1 (.set k v o)
+    let s3 := final (MSys.step c) r2.1 mid
+    r2.2 = .ok →
+    (secOf s1.clock + o.ttl.getD dttl < secOf s3.clock → (MSys.step c s3 (.get k g)).2 = .notFound) ∧
+    (secOf s3.clock ≤ secOf s1.clock + o.ttl.getD dttl →
+      (MSys.step c s3 (.get k g)).2 = .value v ∨
+      ((MSys.step c s3 (.get k g)).2 = .notFound ∧ s3.mem.lookup k = none)) := by
+  intro s1 r2 s3 hok
+  have hwf1 : WF s1.mem := ttl_reachable_wf c clock size dttl pre
+  have hdt : s1.mem.dttl = dttl := msys_dttl c pre (MSys.start clock size dttl)
+  obtain ⟨hm2, ho2⟩ := msys_step_mem c s1 (.set k v o)
+  have hok' : (s1.mem.set c (secOf s1.clock) k v o).2 = .ok := by rw [← hok, ho2]; rfl
+  have ht2 : Tracks r2.1.mem k v (some (secOf s1.clock + o.ttl.getD dttl)) := by
+    have := tracks_after_set (c := c) hwf1 hkeep hok'
+    rw [hdt] at this
+    have hnp : ¬ (o.ttl.getD dttl ≤ 0) := by omega
+    simp only [deadline, hnp, if_false] at this
+    show Tracks (MSys.step c s1 (.set k v o)).1.mem k v _
+    rw [hm2]; exact this
+  have hwf2 : WF r2.1.mem := by
+    show WF (MSys.step c s1 (.set k v o)).1.mem
+    rw [hm2]; exact wf_step hwf1 _ _
+  have ht3 : Tracks s3.mem k v (some (secOf s1.clock + o.ttl.getD dttl)) := tracks_run mid r2.1 hwf2 ht2 hmid
+  obtain ⟨_, ho4⟩ := msys_step_mem c s3 (.get k g)
+  rw [ho4]
+  simp only [Mem.step]
+  cases hl : s3.mem.lookup k with
+  | none =>
+    have hnf : (s3.mem.get (secOf s3.clock) k g).2 = .notFound := get_notFound_iff.2 (Or.inl hl)
+    exact ⟨fun _ => hnf, fun _ => Or.inr ⟨hnf, rfl⟩⟩
+  | some n =>
+    obtain ⟨hv, hdl⟩ := ht3 n hl
+    constructor
+    · intro hlt
+      apply get_notFound_iff.2; right
+      refine ⟨n, hl, ?_⟩
+      rw [hdl]; simp only [expired, decide_eq_true_eq]; omega
+    · intro hle
+      left
+      apply get_value_iff.2
+      refine ⟨n, hl, ?_, hv⟩
+      rw [hdl]; simp only [expired, decide_eq_false_iff_not]; omega
 
-    ∀ c, c.indexOrder = .beforeEvict → ∀ s (reachable), ∀ k on the recency list, ∀ ops that contain no Clear and no
-    call addressing k: if the number of *distinct* keys addressed by `ops` plus the number of nodes in front of k
-    is < size, then k is still indexed, with the same node, in `final (MSys.step c) s ops`.
+/-! ### a recently touched key is never evicted -/
 
-What is proved (`_partial`): the one-call step with *positions* instead of distinct keys — a call that does not
-address k moves its node back by at most one place and cannot drop it while fewer than `size − 1` nodes are in
-front of it; a hit / overwrite puts the key at the head; a Set of a new key drops exactly the tail, and only when
-the list is full. Missing for the full statement: the counting argument that the nodes in front of k are always
-among the distinct keys addressed since k's last touch (a subset/cardinality invariant over `ops`). -/
+/-- every reachable state (index written before the eviction) respects the bound on the recency list -/
+theorem ttl_reachable_bounded (c : Cfg) (hc : c.indexOrder = .beforeEvict) (clock size : Nat) (dttl : Int)
+    (ops : List Op) : Bounded (final (MSys.step c) (MSys.start clock size dttl) ops).mem :=
+  msys_mem_inv c Bounded (fun _ now op h => bounded_step hc h now op) ops _ (bounded_new size dttl)
 
-theorem ttl_recent_not_evicted_partial (c : Cfg) (hc : c.indexOrder = .beforeEvict) (m : Mem) (hb : Bounded m)
+/-- With the index written before the eviction, in any well-formed bounded state (every reachable one is), for a node
+    `x` on the recency list whose predecessors all have keys in `S`: after ANY call sequence that contains no Clear and
+    no call addressing `x`'s key — Sets (new and existing keys, evictions included), Gets of every kind, Removes,
+    clock advances, elapsed keys being purged — `x` is still indexed, unchanged, provided the number of DISTINCT keys
+    in `S` together with those addressed by the sequence (`touchedBy`) is below `size`. -/
+theorem ttl_recent_not_evicted (c : Cfg) (hc : c.indexOrder = .beforeEvict) (s : MSys) (hwf : WF s.mem)
+    (hb : Bounded s.mem) (x : Node) (S : List Key) (hx : Ahead s.mem x S) (ops : List Op)
+    (hops : ∀ op ∈ ops, opKey op ≠ some x.key ∧ op ≠ .clear) (hcard : (touchedBy S ops).length < s.mem.size) :
+    (final (MSys.step c) s ops).mem.lookup x.key = some x :=
+  ahead_lookup (msys_mem_inv c WF (fun _ now op h => wf_step h now op) ops s hwf)
+    (ahead_run hc ops s S hwf hb hx hops hcard)
+
+/-- the property's wording: a key that was just touched (its node is the head of the list — what a hit, an overwrite
+    and an insert produce, `ttl_touch_moves_to_front`, `ttl_evicts_only_tail`) survives as long as fewer than `size`
+    distinct other keys are touched -/
+theorem ttl_recent_after_touch (c : Cfg) (hc : c.indexOrder = .beforeEvict) (s : MSys) (hwf : WF s.mem)
+    (hb : Bounded s.mem) (x : Node) (rest : List Node) (hhead : s.mem.live = x :: rest) (ops : List Op)
+    (hops : ∀ op ∈ ops, opKey op ≠ some x.key ∧ op ≠ .clear) (hcard : (touchedBy [] ops).length < s.mem.size) :
+    (final (MSys.step c) s ops).mem.lookup x.key = some x :=
+  ttl_recent_not_evicted c hc s hwf hb x [] ⟨[], rest, by simpa using hhead, by simp⟩ ops hops hcard
+
+/-- End to end, on histories only: after a successful Set of `k` (no keep-ttl, effective ttl `d > 0`, size ≥ 1) at
+    reading `t`, if the calls that follow never address `k`, contain no Clear and address fewer than `size` distinct
+    keys, then a Get of `k` at any reading `r ≤ t + d` HITS and returns the value that was set. -/
+theorem ttl_live_recent_hits (c : Cfg) (hc : c.indexOrder = .beforeEvict) (clock size : Nat) (hs : 1 ≤ size)
+    (dttl : Int) (pre mid : List Op) (k : Key) (v : Val) (o : SetOpt) (g : GetOpt) (hkeep : o.keepTTL = false)
+    (hd : 0 < o.ttl.getD dttl) (hmid : ∀ op ∈ mid, opKey op ≠ some k ∧ op ≠ .clear)
+    (hcard : (touchedBy [] mid).length < size) :
+    let s1 := final (MSys.step c) (MSys.start clock size dttl) pre
+    let r2 := MSys.step c s1 (.set k v o)
+    let s3 := final (MSys.step c) r2.1 mid
+    r2.2 = .ok → secOf s3.clock ≤ secOf s1.clock + o.ttl.getD dttl → (MSys.step c s3 (.get k g)).2 = .value v := by
+  intro s1 r2 s3 hok hle
+  have hwf1 : WF s1.mem := ttl_reachable_wf c clock size dttl pre
+  have hb1 : Bounded s1.mem := ttl_reachable_bounded c hc clock size dttl pre
+  have hsz1 : s1.mem.size = size := msys_size c pre (MSys.start clock size dttl)
+  obtain ⟨hm2, ho2⟩ := msys_step_mem c s1 (.set k v o)
+  have hok' : (s1.mem.set c (secOf s1.clock) k v o).2 = .ok := by rw [← hok, ho2]; rfl
+  obtain ⟨x, rest, hhead, hxk⟩ := set_head hc hb1 (by omega) (secOf s1.clock) k v o hok'
+  have hm2' : r2.1.mem = (s1.mem.set c (secOf s1.clock) k v o).1 := hm2
+  have hwf2 : WF r2.1.mem := by rw [hm2']; exact wf_set hwf1 _ _ _ _
+  have hb2 : Bounded r2.1.mem := by rw [hm2']; exact bounded_set hc hb1 _ _ _ _
+  have hsz2 : r2.1.mem.size = size := by
+    rw [hm2', ← hsz1]; exact step_size c s1.mem (secOf s1.clock) (.set k v o)
+  have hpres := ttl_recent_after_touch c hc r2.1 hwf2 hb2 x rest (by rw [hm2']; exact hhead) mid
+    (by rw [hxk]; exact hmid) (by rw [hsz2]; exact hcard)
+  rw [hxk] at hpres
+  rcases (ttl_elapsed_history c clock size dttl pre mid k v o g hkeep hd
+    (fun op hop => writesTtl_of_opKey (hmid op hop).1) hok).2 hle with h | ⟨_, h⟩
+  · exact h
+  · have : s3.mem.lookup k = some x := hpres
+    rw [h] at this; cases this
+
+/-- the one-call version with positions (kept: it bounds how far a node can move back per call) -/
+theorem ttl_recent_step_position (c : Cfg) (hc : c.indexOrder = .beforeEvict) (m : Mem) (hb : Bounded m)
     (x : Node) (i : Nat) (h : At m x i) (hi : i + 1 < m.size) (now : Int) (op : Op)
     (hop : opKey op ≠ some x.key) (hcl : op ≠ .clear) : At (m.step c now op).1 x (i + 1) :=
   at_step hc hb h hi now op hop hcl
@@ -173,10 +277,24 @@ theorem ttl_touch_moves_to_front (m : Mem) (n x : Node) (h : findKey n.key m.liv
     (m.touch n).live = n :: eraseKey n.key m.live :=
   touch_head h
 
-/-- non-vacuity of `ttl_recent_not_evicted_partial`: k2 sits behind one node in a cache of size 3 -/
+/-- non-vacuity of `ttl_recent_step_position`: k2 sits behind one node in a cache of size 3 -/
 example : let m : Mem := ⟨3, 0, [⟨1, 5, none⟩, ⟨2, 6, none⟩], []⟩
     Bounded m ∧ At m ⟨2, 6, none⟩ 1 ∧ 1 + 1 < m.size :=
   ⟨⟨rfl, by decide⟩, ⟨[⟨1, 5, none⟩], [], rfl, by decide⟩, by decide⟩
+
+/-- non-vacuity of `ttl_recent_not_evicted`: size 3, k1 at the head; three calls touching two distinct other keys
+    (one of them twice, one insert evicting nothing) leave k1 indexed; a third distinct key would evict it -/
+example : let s : MSys := ⟨1000, ⟨3, 0, [⟨1, 5, none⟩, ⟨2, 6, none⟩], []⟩⟩
+    let ops : List Op := [.set 3 7 ⟨none, false, false⟩, .get 2 ⟨false, none⟩, .set 3 8 ⟨none, false, false⟩]
+    (touchedBy [] ops).length = 2 ∧ (final (MSys.step Cfg.fixed) s ops).mem.lookup 1 = some ⟨1, 5, none⟩ ∧
+    (final (MSys.step Cfg.fixed) s (ops ++ [.set 4 9 ⟨none, false, false⟩])).mem.lookup 1 = none := by decide
+
+/-- non-vacuity of `ttl_elapsed_history`: Set at reading 1700000000 with ttl 3, a keep-free noise history, then Gets at
+    readings t+3 (hit) and t+4 (miss) -/
+example : outs (MSys.step Cfg.fixed) (MSys.start 1700000000500 2 0)
+    [.set 1 5 ⟨some 3, false, false⟩, .get 1 ⟨false, none⟩, .set 2 6 ⟨none, false, false⟩, .tick 3499,
+     .get 1 ⟨false, none⟩, .tick 1, .get 1 ⟨false, none⟩] =
+    [.ok, .value 5, .ok, .ok, .value 5, .ok, .notFound] := by decide
 
 /-! ### the redis-backed cache agrees with the in-memory one -/
 
